@@ -56,7 +56,7 @@ Proof.
     - (* T_order *) intros s is s1 t E (HQ & dead & Hr & Hdd). split; [eapply M14; eauto|]. exists dead. split; auto. intros i Hi. rewrite (M11 _ _ _ E). auto.
     - intros s t HT. cbn. apply Te_tail; auto. intros e [<-|[]]. exact I.
     - intros s t o HT E. apply Te_tail; auto. intros e [<-|[]]. exact I.
-    - intros s t _ HT. apply Te_tail; auto. intros e [<-|[]]. exact I.
+    - intros s t _ _ HT. apply Te_tail; auto. intros e [<-|[]]. exact I.
     - intros _ s t HT. apply Te_tail; auto. intros e [<-|[]]. exact I.
     - intros s t HT. apply HT.
     - intros s t HT. apply HT.
